@@ -132,6 +132,18 @@ def check_case(ctx, case, on_op=None):
             diff = same_outcome(out, tw)
             if diff is not None:
                 ctx.violation("history_dependent_answer", f"{label} after {idx} earlier operations: {diff}")
+            if op["op"] == "at" and out.kind in ("num", "DomainError"):
+                # a fresh twin in the same process shares module-level state with the used objects; the reference
+                # model does not, so evaluations are also judged against it
+                i_ = op["e"] % len(h.objs)
+                ref = R.NORMAL.evaluate(h.full[i_], h.points[op["p"] % len(h.points)])
+                if ref.status == "def" and out.kind == "num" and not R.contains(ref.root.iv, out.value) and not (ref.root.fx and ref.root.ex == out.value):
+                    ctx.violation("history_dependent_answer", f"{label}: {S.show(h.full[i_])[:300]} evaluated to {out.value!r}, reference enclosure [{R.lo_float(ref.root.iv)!r}, {R.hi_float(ref.root.iv)!r}]")
+                elif ref.status == "def" and out.kind == "DomainError":
+                    ctx.violation("history_dependent_answer", f"{label}: {S.show(h.full[i_])[:300]} raised DomainError at a point the reference says is inside the domain")
+                elif ref.status == "undef" and out.kind == "num":
+                    ctx.violation("history_dependent_answer", f"{label}: {S.show(h.full[i_])[:300]} returned {out.value!r} at a point the reference says is outside the domain ({ref.undef[0]})")
+                ctx.count("evaluations_judged_by_reference")
             if hooks.ST.memo_viol:
                 v = hooks.ST.memo_viol[0]
                 ctx.violation("stale_memo_returned", f"{label}: node {S.show(S.from_json(v['node']))[:300]} at {v['point']}: memoised {v['memoised']}, fresh copy gives {v['fresh']}")
